@@ -154,6 +154,16 @@ def single_edits(schema, rng, per_rule_cap=6):
                 add("wrong-kind-reference", "data-type-not-composite@" + where, True, "level", li,
                     lambda l, s, di=di, n=nonc: setattr(l.data[di], "type", n))
             break
+        # a level header used in the *other* role: valid as group dimension, malformed as <data> header and vice versa
+        # (whichever role happens to be validated first must not vouch for the other)
+        if lv.groups and lv.data:
+            add("malformed-level-header", "data-type-is-a-group-dimension@" + where, True, "level", li,
+                lambda l, s: setattr(l.data[0], "type", l.groups[0].eff_dimension()))
+        data_types = sorted({d.type for _, _, l2 in levels_of(schema) for d in l2.data})
+        for gi, g in enumerate(lv.groups):
+            if data_types:
+                add("malformed-level-header", "dimensionType-is-a-data-header@" + where, True, "level", li,
+                    lambda l, s, gi=gi, n=data_types[0]: setattr(l.groups[gi], "dimension_type", n))
         # names
         for kind, lst in (("field", "fields"), ("group", "groups"), ("data", "data")):
             if getattr(lv, lst):
